@@ -49,6 +49,7 @@ def cells(tier):
             out.append({'kind': 'raw', 'w': w, 'c': 1})
         out.append({'kind': 'esc', 'm': 6})
         out.append({'kind': 'multi', 'lines': 2, 'c': 1})
+        out.append({'kind': 'succraw', 't': 2, 'c': 1})
     else:
         big = []
         for m in range(0, 5):
@@ -73,6 +74,7 @@ def cells(tier):
         big.extend(api.shards({'kind': 'raw', 'w': 6, 'c': 1}, 16, 10))
         out.append({'kind': 'esc', 'm': 7})
         out.append({'kind': 'multi', 'lines': 3, 'c': 2})
+        out.append({'kind': 'succraw', 't': 3, 'c': 1})
         out.sort(key=lambda x: -(x.get('m', x.get('w', 0)) * 4 +
                                  x.get('succ', 0) * 2 + 3 * x.get('c', 0)))
         return big + out
@@ -123,6 +125,8 @@ def run(cell):
     k = cell['kind']
     if k == 'rt':
         return run_rt(cell)
+    if k == 'succraw':
+        return run_succraw(cell)
     if k == 'raw':
         return run_raw(cell)
     if k == 'esc':
@@ -308,6 +312,51 @@ def _raw(segs, inbuf):
     except api.StepBudget:
         return ('hang',)
     return ('ok', code, text, io.recv_buffer + sock.unread())
+
+
+def run_succraw(cell):
+    """a well-formed reply followed, in the same stream, by a reply line
+    with t arbitrary text bytes (invalid UTF-8, CR, LF ...): the first is
+    returned, the second is returned or is a bad reply - nothing else"""
+    from slimta.smtp.io import IO
+    from slimta.smtp import BadReply, ConnectionLost
+    t, c = cell['t'], cell['c']
+    first = [b'250 ok\r\n', b'250-a\r\n250 b\r\n'][api.choice('first', 2)]
+    tail = api.sbytes('t', t)
+    wire = first + b'250 ' + tail + b'\r\n'
+    segs, pos = cut_stream(wire, c)
+    segs = [x for x in segs if len(x)]
+    inbuf = api.choice('inbuf', 2)
+    sock = FakeSocket(eof=True)
+    io = IO(sock, address=('h', 1))
+    if inbuf and segs:
+        io.recv_buffer = segs.pop(0)
+    sock.segments = segs
+    info = dict(t=t, cuts=pos, inbuf=inbuf)
+    rest = wire
+    for i in range(2):
+        ref = ref_parse(rest)
+        try:
+            code, text = io.recv_reply()
+            got = ('ok', code, text)
+        except BadReply:
+            got = ('bad',)
+        except ConnectionLost:
+            got = ('more',)
+        except api.Unsupported:
+            raise
+        except Exception as e:
+            got = ('raised:' + type(e).__name__,)
+        api.observe('reply%d' % i, list(got))
+        if got[0] != ref[0]:
+            api.fail('raw-outcome-differs-from-reference', index=i,
+                     got=got[0], ref=ref[0], **info)
+            return
+        if got[0] != 'ok':
+            return
+        api.prove(got[1] == ref[1], 'raw-code', index=i, **info)
+        api.prove(got[2] == ref[2], 'raw-text', index=i, **info)
+        rest = rest[ref[3]:]
 
 
 def run_raw(cell):
